@@ -667,11 +667,12 @@ theorem RW_exact :
   refine ⟨_, _, rfl, ?_⟩
   decide
 
-/-- R8 (OPEN; a consequence of 02d463a on RECURSIVE types): 0 never, 1 int, 2 `never | int`,
+/-- R8 (fixed by 7120dc6; a consequence of 02d463a on RECURSIVE types): 0 never, 1 int, 2 `never | int`,
 3 `(x: never | int)`, 4 `Nil`, 5 `^1`, 6 `(x: int, y: ^1)`, 7 `Nil | (x: int, y: ^1)` (x = 2, y = 3, Nil = 4).
-`intersect_types` takes the variants of 7 one by one; the partial-vs-partial arm copies the field `y: ^1`,
+`intersect_types` takes the variants of 7 one by one; the partial-vs-partial arm copied the field `y: ^1`,
 which only the variant 6 has, into the result `(x: int, y: ^1)` — read outside the union its `^1` has no
-boundary left, and `[x: 0, y: Nil]`, a value of both operands, is refused. `intersect_keeps` is a theorem
+boundary left, and `[x: 0, y: Nil]`, a value of both operands, was refused (`Variant.partialIntersectUnguarded`).
+Since 7120dc6 the arm keeps the left operand when either operand contains a `Cycle`. `intersect_keeps` is a theorem
 about FIRST-ORDER operands (`FO`: no `Cycle`) and is not contradicted: 7 is recursive. -/
 def tR8 : Table :=
   ⟨[.union [], .integer, .union [0, 1], .part none [(2, 2)], .tuple 2, .cycle 1,
@@ -684,10 +685,12 @@ theorem R8_value_of_both : vR8.wf = true ∧ inhB tR8 8 [] 3 vR8 = true ∧ inhB
   decide
 /-- the result is the variant's partial type, and it refuses the value -/
 theorem R8_dropped :
-    ∃ T' r, intersect Variant.current 16 8 tR8 3 7 = some (T', r) ∧
+    ∃ T' r, intersect { partialIntersectUnguarded := true } 16 8 tR8 3 7 = some (T', r) ∧
       T'.types[r]? = some (.part none [(2, 1), (3, 5)]) ∧ inhB T' 16 [] r vR8 = false := by
   refine ⟨_, _, rfl, ?_⟩
   decide
+/-- with the guard the left operand is kept, and it has the value -/
+theorem R8_repaired : (intersect Variant.current 16 8 tR8 3 7).map (·.2) = some 3 := by decide
 /-- the old rule kept the left operand, which has the value -/
 theorem R8_old_rule_kept_left :
     (intersect { partialIntersectKeepsLeft := true } 16 8 tR8 3 7).map (·.2) = some 3 := by decide
